@@ -105,11 +105,18 @@ class RoundTrip(Sub):
             Min = Min.mT.contiguous().mT
             rec.label("matrix_arg:column_major")
         Min0 = Min.clone()
-        with rec.sut("%s(%s,check=%s)" % (case["via"], layout, case["check"])):
+        # the documented tolerance arguments, given explicitly and DIFFERENT from each other for one checked case in three: a purely
+        # absolute tolerance far above the rounding of a valid matrix (1e3 x eps-level defects) - valid input must still never raise
+        # (tolerances handed on in the wrong order / by position would turn atol into 0 - seed C11f)
+        tkw = {}
+        if case["check"] and tu.view_of(case, "tol") == "strided":
+            tkw = {"rtol": 0.0, "atol": 1e-6 if dtype == "float64" else 2e-5}      # far above rounding, far below the smallest stated scale 1e-3 (the rank guard compares the scale with atol)
+            rec.label("explicit_rtol0_atol")
+        with rec.sut("%s(%s,check=%s%s)" % (case["via"], layout, case["check"], ",rtol=0,atol=%g" % tkw["atol"] if tkw else "")):
             if case["via"] == "mat2":
-                Y = CONV[lt](Min, check=case["check"])
+                Y = CONV[lt](Min, check=case["check"], **tkw)
             else:
-                Y = pp.from_matrix(Min, tu.LT[lt], check=case["check"])
+                Y = pp.from_matrix(Min, tu.LT[lt], check=case["check"], **tkw)
         rec.label(lt, dtype, layout)
         if not rec.check(isinstance(Y, pp.LieTensor) and Y.ltype == tu.LT[lt] and tuple(Y.shape) == tuple(case["lshape"]) + (R.GDIM[lt],),
                          "type", "converter returned %s shape %s" % (getattr(Y, "ltype", None), tuple(Y.shape))):
